@@ -236,7 +236,15 @@ def check_panic_sites(rep, fl, rule="R20.2"):
                 sts = [expand_state(b, s_, hist=True) for s_ in at_.get((bi, term_idx(b, bi)), set())]
                 # guarded by `b < a` / `!(a < b)` / `a > b` on the same operands
                 def guarded(s_):
+                    # (p - q) - 1 where the path knows q < p (integers: p - q >= 1)
+                    d_ = strip_casts(av)
+                    one = bv[0] == "const" and isinstance(bv[1], int) and bv[1] <= 1
                     for x, v in s_.lits:
+                        if one and d_[0] == "bin" and d_[1] == "Sub" and x[0] == "bin" and x[1] in ("Lt", "Le"):
+                            l_, r_ = strip_casts(x[2]), strip_casts(x[3])
+                            p_, q_ = strip_casts(d_[2]), strip_casts(d_[3])
+                            if (x[1] == "Lt" and v and l_ == q_ and r_ == p_) or (x[1] == "Le" and v is False and l_ == p_ and r_ == q_):
+                                return True
                         if x[0] == "bin" and x[1] == "Lt":
                             l_, r_ = strip_casts(x[2]), strip_casts(x[3])
                             if v and l_ == strip_casts(bv) and r_ == strip_casts(av):
@@ -408,12 +416,20 @@ def check_builder_plumbing(rep, fl, rule="R20.5"):
         return
     for m, fld in sorted(SIMPLE_SETTERS.items()):
         b = facts.body(CORE + "::" + m)
+        param = V(b.local_name.get(2, "arg2"))
         ws = stmt_nodes(b, lambda s: s["pl"]["l"] == 1 and s["pl"]["p"])
-        ok = len(ws) == 1 and field_last(ws[0][2]["pl"])[0] == fld
-        if ok:
-            v = norm(b.rvalue_expr(ws[0][2]["rv"], True))
-            param = V(b.local_name.get(2, "arg2"))
-            ok = v == param and norm(return_expr(b)) == V("self")
+        ags = agg_nodes(b, CORE)
+        if ags and not ws:
+            # `Self { field: v, ..self }`: a rebuilt builder, every other field taken from self
+            f = agg_fields(ags[0][3]) if len(ags) == 1 else {}
+            ret = return_expr(b)
+            ok = len(ags) == 1 and ret is not None and norm(ret) == norm(ags[0][3]) and f.get(fld) == param and \
+                all(f.get(name) == norm(F(V("self"), name)) or (name.startswith("marker") and f.get(name) is not None) for name in fields if name != fld)
+        else:
+            ok = len(ws) == 1 and field_last(ws[0][2]["pl"])[0] == fld
+            if ok:
+                v = norm(b.rvalue_expr(ws[0][2]["rv"], True))
+                ok = v == param and norm(return_expr(b)) == V("self")
         rep.check(ok, rule, fl, b, m, "%s(v) writes v into %s and returns the builder" % (m, fld), "%s does not store its argument into `%s` (only): the configured value is lost or lands in another tunable" % (m, fld))
     for m, fld in sorted(REBUILD_SETTERS.items()):
         b = facts.body(CORE + "::" + m)
